@@ -1,0 +1,52 @@
+//go:build verif
+
+package validation
+
+import (
+	"strings"
+
+	v1 "github.com/fatedier/frp/pkg/config/v1"
+	"github.com/fatedier/frp/verif"
+)
+
+// "ports in range"
+//
+//verif:contract ~/pkg/config/v1/validation.ValidatePort
+//verif:props C18
+func verif_ValidatePort(port int, fieldPath string) {
+	err := ValidatePort(port, fieldPath)
+	verif.Ensures((err == nil) == (0 <= port && port <= 65535), "accepted_iff_in_range")
+}
+
+// VerifInSubdomainSpace: the custom domain lies in the server's subdomain space
+// (more labels than the subdomain host and containing it), letter case ignored
+// - the router lower-cases every host it registers.
+//
+//verif:pure
+func VerifInSubdomainSpace(domain, host string) bool {
+	return host != "" && len(strings.Split(host, ".")) < len(strings.Split(domain, ".")) &&
+		strings.Contains(strings.ToLower(domain), strings.ToLower(host))
+}
+
+// "custom domains outside the server's subdomain host whatever their letter
+// case": a configuration accepted by the server-side validation has no custom
+// domain in the subdomain space; subdomains contain neither '.' nor '*'.
+//
+//verif:contract ~/pkg/config/v1/validation.validateDomainConfigForServer
+//verif:props C18
+func verif_validateDomainConfigForServer(c *v1.DomainConfig, s *v1.ServerConfig, k int) {
+	err := validateDomainConfigForServer(c, s)
+	if err == nil {
+		if k >= 0 && k < len(c.CustomDomains) {
+			verif.Ensures(!VerifInSubdomainSpace(c.CustomDomains[k], s.SubDomainHost), "no_custom_domain_in_subdomain_space")
+		}
+		if c.SubDomain != "" {
+			verif.Ensures(s.SubDomainHost != "" && !strings.Contains(c.SubDomain, ".") && !strings.Contains(c.SubDomain, "*"), "subdomain_is_a_single_plain_label")
+		}
+	}
+}
+
+//verif:loop ~/pkg/config/v1/validation.validateDomainConfigForServer 1 inv=verifLoopDomains args=c,s,rangeindex
+func verifLoopDomains(c *v1.DomainConfig, s *v1.ServerConfig, idx int, m int) bool {
+	return m < 0 || m > idx || m >= len(c.CustomDomains) || !VerifInSubdomainSpace(c.CustomDomains[m], s.SubDomainHost)
+}
